@@ -686,15 +686,20 @@ pub fn check(spec: &'static PropSpec, tier: Tier) -> i32 {
         "[{}] runs={} distinct_nontrivial={} distinct_logs={} violations={} (known {}) rechecks={} wall={:.1}s",
         spec.id, runs, nontrivial.len(), all.len(), total_violations, known_count, recheck_pairs, wall
     );
-    if let Some(e) = harness_error {
-        println!("HARNESS-ERROR property={} {e}", spec.id);
-        return 2;
-    }
+    // violations that were found are reported even when the batch also met a harness error (a stuck
+    // run of a property for which that is no verdict, say): the error is printed next to them
     if !new_violation_lines.is_empty() {
         for l in new_violation_lines {
             println!("{l}");
         }
+        if let Some(e) = harness_error {
+            println!("HARNESS-ERROR property={} {e} (reported in addition to the violations above)", spec.id);
+        }
         return 1;
+    }
+    if let Some(e) = harness_error {
+        println!("HARNESS-ERROR property={} {e}", spec.id);
+        return 2;
     }
     if runs == 0 {
         println!("HARNESS-ERROR property={} no runs executed", spec.id);
